@@ -277,8 +277,8 @@ func runProbe(r *hx.Run, sub uint64, plan []string, no int) (bool, string) {
 	if len(plan) > 0 && strings.Contains(plan[0], " race=1") {
 		// a plan for the race-detector build of this harness (quick tier: built next to the plain one by checks/c05.py)
 		rb := os.Getenv("C05_RACE_BIN")
-		if rb == "" {
-			r.Count("probe-skipped-no-race-binary")
+		if st, err := os.Stat(rb); rb == "" || err != nil || st.IsDir() {
+			r.Count("probe-skipped-no-race-binary") // never a finding: the build of the second binary is best effort
 
 			return false, ""
 		}
@@ -298,6 +298,11 @@ func runProbe(r *hx.Run, sub uint64, plan []string, no int) (bool, string) {
 	r.CountN("probe-child-ms", int(time.Since(t0).Milliseconds()))
 	r.Count("probe-children")
 	if err == nil {
+		return false, ""
+	}
+	if _, isExit := err.(*exec.ExitError); !isExit {
+		r.Count("probe-skipped-child-not-started") // fork/exec failed (resources of the machine), nothing ran
+
 		return false, ""
 	}
 	text := string(out)
